@@ -326,7 +326,7 @@ Section Shift.
     | TStruct _ fs al =>
       (fix go (fs : list field) : bool := match fs with [] => true | Fld _ _ t _ _ :: r => shift_ok t && go r end) fs
       && match layout_struct c al fs with
-         | Ok lay => offs_nonneg (l_offs lay) && (if al then al_okb (l_align lay) && forallb (fun f => al_okb (fm_align (meta_of c f))) fs else true)
+         | Ok lay => offs_nonneg (l_offs lay) && (if al then al_okb (eff_align (l_align lay)) && forallb (fun f => al_okb (fm_align (meta_of c f))) fs else true)
          | Err _ => true end
     | TUnion _ fs al =>
       (fix go (fs : list field) : bool := match fs with [] => true | Fld _ _ t _ _ :: r => shift_ok t && go r end) fs
